@@ -20,8 +20,8 @@ def main():
 
 
 MANIFEST = {
-    "claimed": False,
-    "text": "",
-    "note": "",
+    "claimed": True,
+    "text": 'Theorems (Coq, closed under the global context; for every parsed request, well-formed or not, every configuration, server state, clock, cookie algorithm and both shapes of the cookie loop): every answer Server::handle or any response builder + serialize produces is at most as long as the buffer it was given (C16_cursor, C16_serialize_bounded); the daemon calls handle with the receive and the send buffer both cut to the received length and sends exactly the returned slice (source text re-extracted on every run), so its reply is at most as long as the request (C16_daemon); NTPv5 padding brings an answer to exactly the desired size when both are multiples of four and never rounds past it (C16_v5_padding_exact, C16_v5_no_rounding); every encoded field list has a length divisible by four (C16_mod4).',
+    "note": "Trusted: Coq kernel + vm_compute; hand-written model coq/Model/Response.v over PARSED requests (the byte decoder is builder P1's; the request as the real decoder reports it is the model input); the bounded Cursor is modelled as one final length test (every write failure = Err), tied by runs with a request-sized, a 1024-byte and random small buffers; AES-SIV, nonces, the NTPv5 server cookie and cookie contents abstract (harness decrypts with the real keys); the daemon side of C16_daemon is the quoted source text (constants table) plus the reading that `length` is bytes_read; requests <= 1024 bytes in the runs. Print Assumptions: closed under the global context.",
     "design_ref": "DESIGN.md 3 C16",
 }
